@@ -151,6 +151,7 @@ Proof.
   - intros a b Ha Hb. apply vk_iff in Ha, Hb. cbn. f_equal.
     pose proof (all2_spec _ _ _ chk_dh_sym a b ltac:(unfold q in *; lia) ltac:(unfold q in *; lia)) as H.
     now apply Z.eqb_eq in H.
+  - intros p s _ _. reflexivity.
   - intros b p H. cbn in H. apply byte2z_inv in H as (H & _ & _). now apply vp_iff.
   - intros b s _ H. cbn in H. apply byte2z_inv in H as (H & _ & _). now apply vk_iff.
 Qed.
